@@ -44,7 +44,7 @@ Fire(a) ==
     [] a.op = "vset"     -> VecSet(a.o, a.c, a.src)
     [] a.op = "sortkey"  -> DgSortByKey(a.g, a.k)
     [] a.op = "sortidx"  -> DgSortByIdx(a.g, a.p)
-    [] a.op = "iop"      -> IOpArgsOk(a.o, a.rhs) /\ IOpQ(a.f, a.o, a.rhs, a.q)
+    [] a.op = "iop"      -> IF a.rhs < 0 THEN IOpSelf(a.f, a.o, 0 - a.rhs) ELSE IOpArgsOk(a.o, a.rhs) /\ IOpQ(a.f, a.o, a.rhs, a.q)
     [] a.op = "eq"       -> DgEq(a.g, a.h)
     [] a.op = "dsset"    -> DsSet(a.d, a.k, a.g)
     [] a.op = "dssetbad" -> DsSetBad(a.d, a.k, a.o)
